@@ -450,6 +450,37 @@ async fn run_scenario_async(scn: Value, store: ScriptedObjectStore) {
                                  "err": r.err().map(|e| e.to_string()).unwrap_or_default()}));
             }
             "compact" => do_compact(&store, &scn, opi, parse_fault(&op[1])).await,
+            // install a checkpoint of everything recoverable (what a checkpoint job would do): checkpoint object,
+            // manifest.compact_segments, manifest saved; no faults (actor "K")
+            "ckpt" => {
+                let ks = store.as_actor("K");
+                let rm = RecoveryManager::new(ks.clone(), PREFIX, 1);
+                if let Ok(rs) = rm.recover().await {
+                    let mut state: HashMap<String, redis_sim::replication::state::ReplicatedValue> = rs.checkpoint_state.unwrap_or_default();
+                    for d in rs.deltas {
+                        let v = match state.get(&d.key) {
+                            Some(c) => c.merge(&d.value),
+                            None => d.value.clone(),
+                        };
+                        state.insert(d.key.clone(), v);
+                    }
+                    let mm = ManifestManager::new(ks.clone(), PREFIX);
+                    if let Ok(mut manifest) = mm.load().await {
+                        let last = manifest.segments.iter().map(|x| x.id).max();
+                        if let Some(last) = last {
+                            let n = state.len() as u64;
+                            if let Ok(data) = redis_sim::streaming::CheckpointWriter::new(redis_sim::streaming::Compression::None).write(state, 4242, last) {
+                                let key = format!("{}/checkpoints/chk-{:016}.chk", PREFIX, 4242 + opi);
+                                if ks.put(&key, &data).await.is_ok() {
+                                    manifest.compact_segments(redis_sim::streaming::CheckpointInfo { key, timestamp_ms: 4242, key_count: n, last_segment_id: last });
+                                    let _ = mm.save(&manifest).await;
+                                }
+                            }
+                        }
+                    }
+                }
+                ks.finish_actor();
+            }
             // flush and compaction as two tasks; their mutating calls are gated in `sched` order
             "conc" => {
                 let sched: VecDeque<String> = op[1].as_array().unwrap().iter().map(|s| s.as_str().unwrap().to_string()).collect();
@@ -534,6 +565,10 @@ fn random_scenario(rng: &mut impl Rng, i: usize) -> Value {
         }
         if rng.gen_range(0..5) == 0 {
             ops.push(json!(["compact", cfaults[rng.gen_range(0..cfaults.len())]]));
+        }
+        if rng.gen_range(0..12) == 0 {
+            ops.push(json!(["flush", "none"]));
+            ops.push(json!(["ckpt", "none"]));
         }
     }
     ops.push(json!(["flush", "none"]));
